@@ -185,3 +185,13 @@ Theorem C07_printed_program_text_is_parsed_back_partial : forall P,
                  forall fuel, (f0 <= fuel)%nat -> parse_program_text fuel ts' = POk P (PState [] true).
 Proof. exact scan_parse_show_program. Qed.
 Print Assumptions C07_printed_program_text_is_parsed_back_partial.
+
+(* ... and UNCONDITIONALLY for programs that never consult the exhaustiveness oracle (Check/InferFuel4.v):
+   no `match`, and every `let` / `for` pattern syntactically irrefutable ([no_oracle], a Boolean):
+   the checker terminates within the computable fuel, for any interning function. *)
+From GV Require Import Check.InferFuel4.
+
+Theorem C07_checker_terminates_without_the_oracle : forall intern P fuel,
+  no_oracle P = true -> (check_fuel_needed P <= fuel)%nat -> check_program_t intern fuel P <> CNoFuel.
+Proof. exact check_terminates_no_oracle. Qed.
+Print Assumptions C07_checker_terminates_without_the_oracle.
